@@ -19,14 +19,13 @@ The checker `check src out` reports
 
 Decisions about differences that are *not* violations (see design.d/C11.md):
 * an absent option table equals a present table without fields (Vela always writes the operator's own table);
-* a quantisation table without scale / zero point / min / max equals no table;
+* a quantisation table without scale and zero point equals no table (also when it only carries min / max, which
+  Vela's reader drops and no runtime reads); min / max next to a scale are compared exactly; a scale without zero-point vector
+  means zero point 0 (the legal-but-unusual encodings the generator emits are judged by their meaning);
 * trailing absent (-1) operands are not significant (CONV_2D [x, w] ≡ [x, w, -1]);
 * source operators that reach no output may disappear;
 * SHAPE, and operators all of whose operands are constants, may be replaced by a constant tensor of the same
   name, shape, type and quantisation (value correctness belongs to C01);
-* an NPU-supported operator that is an identity by construction (RESIZE_BILINEAR / RESIZE_NEAREST_NEIGHBOR to the
-  same size, SPLIT into one part; same shape, type and quantisation on both sides) may be removed; a preserved
-  consumer then reads the removed operator's input ("bypassed");
 * Vela may create new tensors between two Ethos-U operators; they must stay private to Ethos-U operators.
 
 The fixpoint iterations (`slice`, `foldable`) are run with a fuel and the result is *checked* to be closed
@@ -110,8 +109,15 @@ def opOutputs (g : PGraph) (j : Nat) : List Nat :=
 
 /-! ## normal forms -/
 
+/-- Quantisation parameters are compared by their *meaning* to a TFLite runtime:
+    * a table without scale and without zero point says nothing about how to execute (≡ no table), even if it
+      carries a min / max range: Vela's reader drops such a table (`parse_tensor`), the runtime ignores it;
+    * an absent (or empty) zero-point vector next to a scale means zero point 0 for every scale entry. -/
 def normQuant : Option Quant → Option Quant
-  | some q => if q.scale.isEmpty && q.zeroPoint.isEmpty && q.min.isEmpty && q.max.isEmpty then none else some q
+  | some q =>
+    if q.scale.isEmpty && q.zeroPoint.isEmpty then none
+    else if q.zeroPoint.isEmpty && !q.scale.isEmpty then some { q with zeroPoint := q.scale.map fun _ => 0 }
+    else some q
   | none => none
 
 /-- which quantisation fields differ (for the problem text; min / max are compared exactly like scale / zero point) -/
@@ -318,41 +324,6 @@ def matchTable (src out : PGraph) : List (Nat × Nat) :=
 
 def matchCount (table : List (Nat × Nat)) (j : Nat) : Nat := (table.filter fun p => p.2 == j).length
 
-/-! ## bypassed identity operators -/
-
-/-- RESIZE_BILINEAR, RESIZE_NEAREST_NEIGHBOR, SPLIT: identities when input and output have the same shape -/
-def bypassBuiltins : List Nat := [23, 97, 49]
-
-/-- the data operand of source operator `j` if `j` is an identity by construction -/
-def bypassInput (g : PGraph) (j : Nat) : Option Nat :=
-  match g.ops[j]? with
-  | some o =>
-    if bypassBuiltins.contains o.builtin then
-      match o.outputs, (presentInputs o).filter (fun t => !isConstAt g t) with
-      | [r], [x] =>
-        match g.tensors[r]?, g.tensors[x]? with
-        | some tr, some tx =>
-          if tr.shape == tx.shape && tr.dtype == tx.dtype && normQuant tr.quant == normQuant tx.quant then some x else none
-        | _, _ => none
-      | _, _ => none
-    else none
-  | none => none
-
-/-- source operators that are neither preserved nor absorbed and are identities by construction -/
-def bypassedOps (src : PGraph) (table : List (Nat × Nat)) (abs : List Absorb) : List Nat :=
-  (List.range src.ops.length).filter fun j => matchCount table j == 0 && !isAbsorbed abs j && (bypassInput src j).isSome
-
-/-- follow a source tensor up through bypassed operators -/
-def resolve (src : PGraph) (byp : List Nat) : Nat → Nat → Nat
-  | 0, t => t
-  | fuel + 1, t =>
-    match byp.find? fun j => (opOutputs src j).contains t with
-    | some j =>
-      match bypassInput src j with
-      | some x => resolve src byp fuel x
-      | none => t
-    | none => t
-
 /-! ## comparison of a preserved operator with its source -/
 
 /-- operand wiring: same tensor description, same constant data; a source tensor computed by a foldable
@@ -360,18 +331,7 @@ def resolve (src : PGraph) (byp : List Nat) : Nat → Nat → Nat
 def operandEq (src : PGraph) (si : Nat) (ts to : PTensor) : Bool :=
   descEq ts to && (ts.const == to.const || (ts.const.isNone && to.const.isSome && producedByFoldable src si))
 
-/-- … or the same after looking through bypassed identity operators -/
-def operandEqUpTo (src : PGraph) (byp : List Nat) (si : Nat) (to : PTensor) : Bool :=
-  (match src.tensors[si]? with
-   | some ts => operandEq src si ts to
-   | none => false) ||
-  (let si' := resolve src byp src.ops.length si
-   si' != si &&
-   match src.tensors[si']? with
-   | some ts => operandEq src si' ts to
-   | none => false)
-
-def operandProblems (src out : PGraph) (byp : List Nat) (k b : Nat) (si oi : List (Option Nat)) : List Problem :=
+def operandProblems (src out : PGraph) (k b : Nat) (si oi : List (Option Nat)) : List Problem :=
   let si := stripTrailingNone si
   let oi := stripTrailingNone oi
   if si.length ≠ oi.length then [⟨"operand-count", s!"operator {k} (builtin {b}): source {si.length} output {oi.length}"⟩] else
@@ -381,7 +341,7 @@ def operandProblems (src out : PGraph) (byp : List Nat) (k b : Nat) (si oi : Lis
     | some a, some b' =>
       match src.tensors[a]?, out.tensors[b']? with
       | some ta, some tb =>
-        if operandEqUpTo src byp a tb then none
+        if operandEq src a ta tb then none
         else if ta.name != tb.name then some ⟨"operand-wiring", s!"operator {k} (builtin {b}) operand {pos}: {ta.name} vs {tb.name}"⟩
         else if ta.shape != tb.shape then some ⟨"operand-shape", s!"operator {k} (builtin {b}) operand {pos} {ta.name}: {ta.shape} vs {tb.shape}"⟩
         else if ta.dtype != tb.dtype then some ⟨"operand-type", s!"operator {k} (builtin {b}) operand {pos} {ta.name}: {ta.dtype} vs {tb.dtype}"⟩
@@ -402,36 +362,36 @@ def resultProblems (src out : PGraph) (k b : Nat) (so oo : List Nat) : List Prob
       else some ⟨"result-description", s!"operator {k} (builtin {b}) result {pos} {ta.name}"⟩
     | _, _ => some ⟨"dangling-index", s!"operator {k} result {pos}"⟩
 
-def opProblems (src out : PGraph) (byp : List Nat) (k : Nat) (sop oop : POp) : List Problem :=
+def opProblems (src out : PGraph) (k : Nat) (sop oop : POp) : List Problem :=
   (if sop.builtin != oop.builtin then [⟨"builtin-code", s!"operator {k} (builtin {sop.builtin}): {sop.builtin} vs {oop.builtin}"⟩] else []) ++
   (if sop.custom != oop.custom then [⟨"custom-code", s!"operator {k} (builtin {sop.builtin}): {sop.custom} vs {oop.custom}"⟩] else []) ++
   (if sop.version != oop.version then [⟨"version", s!"operator {k} (builtin {sop.builtin}): {sop.version} vs {oop.version}"⟩] else []) ++
   (if !optsEq sop.opts oop.opts then [⟨"options", s!"operator {k} (builtin {sop.builtin}): type {sop.opts.type} {sop.opts.fields} vs type {oop.opts.type} {oop.opts.fields}"⟩] else []) ++
   (if sop.customOpts != oop.customOpts then [⟨"custom-options", s!"operator {k} (builtin {sop.builtin}): {sop.customOpts} vs {oop.customOpts}"⟩] else []) ++
-  operandProblems src out byp k sop.builtin sop.inputs oop.inputs ++ resultProblems src out k sop.builtin sop.outputs oop.outputs
+  operandProblems src out k sop.builtin sop.inputs oop.inputs ++ resultProblems src out k sop.builtin sop.outputs oop.outputs
 
-def opEq (src out : PGraph) (byp : List Nat) (k : Nat) (sop oop : POp) : Bool := (opProblems src out byp k sop oop).isEmpty
+def opEq (src out : PGraph) (k : Nat) (sop oop : POp) : Bool := (opProblems src out k sop oop).isEmpty
 
-def matchProblems (src out : PGraph) (byp : List Nat) : List Problem :=
+def matchProblems (src out : PGraph) : List Problem :=
   (out.ops.zipIdx.flatMap fun (op, k) =>
     if isEthosU op then [] else
     match candidates src out op with
     | [j] =>
       match src.ops[j]? with
-      | some sop => opProblems src out byp k sop op
+      | some sop => opProblems src out k sop op
       | none => [⟨"internal", "candidate out of range"⟩]
     | [] => [⟨"operator-without-source", s!"output operator {k} (builtin {op.builtin}) produces {outKey out op}: no source operator produces these tensors"⟩]
     | js => [⟨"operator-ambiguous-source", s!"output operator {k}: source operators {js} produce the same tensor names"⟩]) ++
   ((dups ((matchTable src out).map (·.2))).map fun j => ⟨"operator-duplicated", s!"source operator {j} appears more than once in the output"⟩)
 
 /-- Bool form of the matching check used by the soundness theorem -/
-def matchOk (src out : PGraph) (byp : List Nat) : Bool :=
+def matchOk (src out : PGraph) : Bool :=
   (out.ops.zipIdx.all fun (op, k) =>
     isEthosU op ||
     match candidates src out op with
     | [j] =>
       (match src.ops[j]? with
-       | some sop => opEq src out byp k sop op
+       | some sop => opEq src out k sop op
        | none => false)
     | _ => false) &&
   (dups ((matchTable src out).map (·.2))).isEmpty
@@ -444,40 +404,31 @@ structure Cover where
   preserved : Nat
   absorbed : Nat
   folded : Nat
-  bypassed : Nat
   dead : Nat
   problems : List Problem
 deriving Repr
 
-/-- a bypassed operator must really be gone: no output tensor carries the name of its result -/
-def bypassGone (src out : PGraph) (j : Nat) : Bool :=
-  (opOutputs src j).all fun t =>
-    match nameAt src t with
-    | some n => (findByName out n).isNone
-    | none => true
-
-def coverOne (src out : PGraph) (table : List (Nat × Nat)) (abs : List Absorb) (byp : List Nat) (j : Nat) : Option Problem :=
+def coverOne (src : PGraph) (table : List (Nat × Nat)) (abs : List Absorb) (j : Nat) : Option Problem :=
   let m := matchCount table j
   let a := abs.filter fun x => x.ops.contains j
   let bi := (src.ops[j]?.map (·.builtin)).getD 0
   if m > 1 then some ⟨"operator-duplicated", s!"source operator {j} (builtin {bi}) appears {m} times in the output"⟩
   else if m == 1 && !a.isEmpty then some ⟨"preserved-and-absorbed", s!"source operator {j} (builtin {bi}) is kept on the CPU and also lies inside Ethos-U operator {a.map (·.pos)}"⟩
-  else if m == 0 && a.isEmpty && !(foldable src).contains j && !(byp.contains j && bypassGone src out j) then
-    some ⟨"operator-lost", s!"source operator {j} (builtin {bi}) reaches an output but is neither preserved, absorbed, foldable nor a removed identity"⟩
+  else if m == 0 && a.isEmpty && !(foldable src).contains j then
+    some ⟨"operator-lost", s!"source operator {j} (builtin {bi}) reaches an output but is neither preserved, absorbed nor foldable"⟩
   else none
 
-def coverOk (src out : PGraph) (table : List (Nat × Nat)) (abs : List Absorb) (byp : List Nat) : Bool :=
-  (reach src).all fun j => (coverOne src out table abs byp j).isNone
+def coverOk (src : PGraph) (table : List (Nat × Nat)) (abs : List Absorb) : Bool :=
+  (reach src).all fun j => (coverOne src table abs j).isNone
 
-def cover (src out : PGraph) (table : List (Nat × Nat)) (abs : List Absorb) (byp : List Nat) : Cover :=
+def cover (src : PGraph) (table : List (Nat × Nat)) (abs : List Absorb) : Cover :=
   let r := reach src
   let un (j : Nat) : Bool := matchCount table j == 0 && !isAbsorbed abs j
   { preserved := (r.filter fun j => matchCount table j ≥ 1).length,
     absorbed := (r.filter fun j => matchCount table j == 0 && isAbsorbed abs j).length,
     folded := (r.filter fun j => un j && (foldable src).contains j).length,
-    bypassed := (r.filter fun j => un j && !(foldable src).contains j && byp.contains j).length,
     dead := src.ops.length - r.length,
-    problems := (r.filterMap (coverOne src out table abs byp)) ++ abs.flatMap (absorbProblems src) }
+    problems := (r.filterMap (coverOne src table abs)) ++ abs.flatMap (absorbProblems src) }
 
 /-! ## the fuelled fixpoints are checked, not trusted -/
 
@@ -503,10 +454,9 @@ def check (src out : PGraph) : Verdict :=
   let pre := wellFormedProblems src ++ topoProblems src
   let table := matchTable src out
   let abs := absorbs src out
-  let byp := bypassedOps src table abs
-  let c := cover src out table abs byp
+  let c := cover src table abs
   { pre := pre,
-    problems := interfaceProblems src out ++ wellFormedProblems out ++ topoProblems out ++ matchProblems src out byp ++ c.problems ++
+    problems := interfaceProblems src out ++ wellFormedProblems out ++ topoProblems out ++ matchProblems src out ++ c.problems ++
       closedProblems src abs,
     cover := c,
     ethosu := (out.ops.filter isEthosU).length }
